@@ -510,8 +510,32 @@ def corpus():
     return out
 
 
+def deep_fault_lines(rng, nblocks, k):
+    """k faults in the LAST extension block / the payload block of a bundle with `nblocks` blocks in front of them (a decoder that checks only
+    the first N blocks, or stops looking after N, lets these through)"""
+    small = genb.rnd_bundle(rng, nblocks=1, crc_kind=rng.randrange(3))
+    small["cs"][0]["num"], small["cs"][0]["type"], small["cs"][0]["data"] = 2, 7, ("AGE", 5)
+    prefix = b"\x9f" + genb.ref_primary(small["p"])[0]
+    filler = b"".join(genb.ref_canonical(dict(type=192, num=10 + i, flags=0, crc=("N",), data=("UNK", b"")))[0] for i in range(nblocks))
+    out = []
+    fl = [(cls, f) for cls, f in all_faults(rng, small)]
+    rng.shuffle(fl)
+    for cls, f in fl:
+        bs = apply_fault(f, small)
+        if bs is None or not bs.startswith(prefix) or len(bs) <= len(prefix) + 1:
+            continue
+        line = "DEC " + xhex(prefix + filler + bs[len(prefix):])
+        _CLASS.setdefault(line, cls + " behind %d blocks" % nblocks)
+        out.append(line)
+        if len(out) >= k:
+            break
+    return out
+
+
 def cases(rng, tier):
     out = []
+    for n, k in ((40, 30), (300, 12), (3000, 6), (10050, 8 if tier == "quick" else 60), (70000, 2 if tier == "quick" else 8)):
+        out += deep_fault_lines(rng, n, k)
     for _ in range(150 if tier == "quick" else 10000):
         out += [l for l, _, _ in fault_lines(rng, rnd_c19_bundle(rng))]
     return out
